@@ -402,11 +402,39 @@ Lemma stmt_pc_examples :
 Proof. repeat split; vm_compute; reflexivity. Qed.
 
 (* ------------------------------------------------------------------ loops, recursion, dummy segments *)
-Lemma loop_iterations_guarded count : Known_loop_count_huge count = false -> 0 <= loop_iterations count <= huge_loop_threshold.
-Proof. unfold Known_loop_count_huge, loop_iterations, huge_loop_threshold. intros H. lia. Qed.
+Lemma guards_now :
+  loop_count_limit = Some 65536 /\ nesting_depth_limit = Some 64%nat /\ parser_nesting_limit = Some 64%nat /\
+  bank_size_limit = Some 16777216 /\ factor_retry_guarded = true /\ arg_list_items_parsed_once = true /\
+  function_callbacks_locked = false.
+Proof. repeat split; reflexivity. Qed.
 
-Lemma loop_iterations_unbounded : forall bound, exists count, in_i64 count = true /\ (bound < i64_max -> bound < loop_iterations count).
-Proof. intros bound. exists i64_max. split; [reflexivity|]. unfold loop_iterations, i64_max. lia. Qed.
+(* the loops of one pass: the count of started iterations never exceeds the budget, whatever the loop counts are *)
+Lemma loop_enter_spec used count : 0 <= used <= 65536 ->
+  (count <= 65536 - used -> loop_enter used count = SOk (used + loop_iterations count) /\ 0 <= used + loop_iterations count <= 65536) /\
+  (65536 - used < count -> loop_enter used count = SDiag diag_loop_budget).
+Proof.
+  intros H. destruct guards_now as (L & _). unfold loop_enter, loop_iterations. rewrite L. split; intros C.
+  - assert (E : (65536 - used <? count) = false) by lia. rewrite E. split; [reflexivity|lia].
+  - assert (E : (65536 - used <? count) = true) by lia. rewrite E. reflexivity.
+Qed.
+
+Lemma loop_enter_total used count : loop_enter used count <> SPanic.
+Proof. unfold loop_enter. destruct loop_count_limit as [m|]; [destruct (m - used <? count)|]; discriminate. Qed.
+
+(* a whole pass: any sequence of loop counts (nested or not, in the order the loops are entered) starts at most
+   65536 iterations before a diagnostic ends it *)
+Fixpoint run_loops (used : Z) (counts : list Z) : Z :=
+  match counts with
+  | [] => used
+  | c :: r => match loop_enter used c with SOk u => run_loops u r | _ => used end
+  end.
+Lemma run_loops_bounded counts : forall used, 0 <= used <= 65536 -> 0 <= run_loops used counts <= 65536.
+Proof.
+  induction counts as [|c r IH]; intros used H; cbn [run_loops]; [exact H|].
+  destruct (loop_enter_spec used c H) as [A B]. destruct (Z_le_gt_dec c (65536 - used)) as [L|G].
+  - destruct (A L) as [-> R]. apply IH. exact R.
+  - rewrite (B ltac:(lia)). exact H.
+Qed.
 
 Lemma import_depth_bounded g : import_depth g <> Unbounded.
 Proof.
@@ -414,32 +442,78 @@ Proof.
   destruct (cyclic_from g 0%nat); discriminate.
 Qed.
 
-Lemma macro_depth_unbounded_iff g : macro_depth g = Unbounded <-> Known_macro_recursion g = true.
+(* every macro invocation graph, cyclic or not: the expansion is bounded or reported *)
+Lemma macro_depth_bounded g : macro_depth g <> Unbounded.
 Proof.
-  unfold macro_depth, Known_macro_recursion. change macro_depth_limit with (@None nat).
-  destruct (cyclic_from g 0%nat); split; try discriminate; auto.
+  unfold macro_depth. destruct guards_now as (_ & N & _). rewrite N. destruct (cyclic_from g 0%nat); discriminate.
 Qed.
 
-Lemma macro_recursion_refuted : macro_depth [[1%nat]; [1%nat]] = Unbounded.
-Proof. vm_compute. reflexivity. Qed.
+(* the guards: a container at depth d is entered iff d < 64; so no token / text is ever processed deeper than 64 *)
+Lemma guard_enter_spec d :
+  (codegen_enter d = SOk (S d) <-> (d < 64)%nat) /\ (codegen_enter d = SDiag diag_nested_too_deep <-> (64 <= d)%nat) /\
+  (parser_enter d = SOk (S d) <-> (d < 64)%nat) /\ (parser_enter d = SDiag diag_nested_too_deep <-> (64 <= d)%nat).
+Proof.
+  destruct guards_now as (_ & N & P & _). unfold codegen_enter, parser_enter, guard_enter. rewrite N, P.
+  destruct (Nat.leb 64 d) eqn:E; [apply Nat.leb_le in E | apply Nat.leb_gt in E]; repeat split; intros H; try discriminate; try lia; reflexivity.
+Qed.
+
+(* the recursion of the guarded walk over a tree of containers never exceeds the limit: model of the walk *)
+Inductive tree := Node (children : list tree).
+Fixpoint walk_depth (fuel : nat) (d : nat) (t : tree) : nat :=
+  match fuel with
+  | O => d
+  | S f => match t with
+           | Node cs => match codegen_enter d with
+                        | SOk d' => fold_right Nat.max d' (map (walk_depth f d') cs)
+                        | _ => d
+                        end
+           end
+  end.
+Lemma walk_depth_bounded fuel : forall d t, (d <= 64)%nat -> (walk_depth fuel d t <= 64)%nat.
+Proof.
+  induction fuel as [|f IH]; intros d t H; cbn [walk_depth]; [exact H|].
+  destruct t as [cs]. destruct (guard_enter_spec d) as (A & B & _).
+  destruct (Nat.lt_ge_cases d 64) as [L|G].
+  - pose proof L as L'. apply A in L'. rewrite L'. induction cs as [|c r IHr]; cbn [map fold_right]; [lia|].
+    apply Nat.max_lub; [apply IH; lia | exact IHr].
+  - apply B in G. rewrite G. exact H.
+Qed.
+
+(* the failing parse of n nested parentheses / argument lists is attempted once, not 2^n times *)
+Lemma parse_attempts_linear n : parse_attempts factor_attempts_per_level n = 1%nat /\ parse_attempts arg_list_attempts_per_level n = 1%nat.
+Proof.
+  destruct guards_now as (_ & _ & _ & _ & F & A & _). unfold factor_attempts_per_level, arg_list_attempts_per_level. rewrite F, A.
+  induction n as [|k [I1 I2]]; cbn [parse_attempts]; [split; reflexivity|]. rewrite I1. split; reflexivity.
+Qed.
+Lemma parse_attempts_unguarded n : parse_attempts 2 n = (2 ^ n)%nat.
+Proof. induction n as [|k IH]; cbn [parse_attempts Nat.pow]; [reflexivity|]. rewrite IH. lia. Qed.
+
+Lemma nested_call_returns : nested_call_of_same_function = CallReturns.
+Proof. reflexivity. Qed.
 
 Lemma nested_dummy_segment_ok : emit_after_nested_dummy = SOk tt.
 Proof. reflexivity. Qed.
 
 Lemma bank_padding_total size len fill : bank_padding size len fill <> SPanic.
-Proof. unfold bank_padding. destruct (size <? 0); [discriminate|]. destruct (len <? size); [destruct fill; discriminate|]. destruct (size <? len); discriminate. Qed.
-
-Lemma bank_padding_guarded size len fill n : 0 <= len -> Known_bank_size_huge size = false ->
-  bank_padding size len fill = SOk n -> 0 <= n <= 1073741824.
 Proof.
-  unfold bank_padding, Known_bank_size_huge. intros L K.
-  destruct (size <? 0) eqn:A; [discriminate|]. destruct (len <? size) eqn:B.
+  unfold bank_padding. destruct ((size <? 0) || _); [discriminate|]. destruct (len <? size); [destruct fill; discriminate|].
+  destruct (size <? len); discriminate.
+Qed.
+
+(* whatever the configured size: the padding built in memory is at most 16 MiB, or the size is rejected *)
+Lemma bank_padding_bounded size len fill n : 0 <= len -> bank_padding size len fill = SOk n -> 0 <= n <= 16777216.
+Proof.
+  destruct guards_now as (_ & _ & _ & B & _). unfold bank_padding. rewrite B. intros L.
+  destruct ((size <? 0) || (16777216 <? size)) eqn:A; [discriminate|]. apply orb_false_iff in A as [A1 A2].
+  destruct (len <? size) eqn:C.
   - destruct fill; [|discriminate]. intros [= <-]. lia.
   - destruct (size <? len); [discriminate|]. intros [= <-]. lia.
 Qed.
 
-Lemma bank_padding_refuted : bank_padding 1099511627776 1 true = SOk 1099511627775 /\ Known_bank_size_huge 1099511627776 = true.
-Proof. split; vm_compute; reflexivity. Qed.
+Lemma bank_padding_examples :
+  bank_padding 1099511627776 1 true = SDiag diag_bank_size_negative /\ bank_padding (-1) 1 true = SDiag diag_bank_size_negative /\
+  bank_padding 16 1 true = SOk 15.
+Proof. repeat split; vm_compute; reflexivity. Qed.
 
 (* the branch arm: `base + 2` wraps, `target_pc - cur_pc` wraps: no panic for any target and any current pc *)
 Lemma branch_offset_total cur target : branch_offset cur target <> SPanic.
